@@ -304,10 +304,7 @@ func genC19(r *hx.Rng, tier string, w io.Writer) {
 		p("%s", putLine(b.file, b, true))
 		load(b.pass)
 		for _, wp := range wrongOf(r, b.pass) {
-			if b.legacy && len(wp) == 0 {
-				continue // the known division by zero has its own scenario below
-			}
-			load(wp)
+			load(wp) // includes the empty passphrase (legacy file: rejected before the legacy derivation)
 		}
 		load(r.Bytes(longLen / 10))
 		p("export pass=%s", hx.Hex(b.pass))
@@ -316,23 +313,27 @@ func genC19(r *hx.Rng, tier string, w io.Writer) {
 		load(b.pass)
 	}
 
-	// ---- 3. known findings, each triggered deliberately in a scenario of its own
+	// ---- 3. the repaired defects (a)-(c) (regression inputs: each must now be an error) and the
+	// known finding (d), each triggered deliberately in a scenario of its own
 	{
 		_, otherSk := keyFromSeed(r.Bytes(32))
 		x := fieldsOf(rb.k)
 		x.pub = bp(cp(otherSk[32:]))
 		p("reset")
 		p("%s", putLine(x.json(), rb, false))
-		load(rb.pass) // (a) stored public key trusted
+		load(rb.pass) // (a) stored public key is not the private key's: rejected
+		p("export pass=%s", hx.Hex(rb.pass))
 		x = fieldsOf(rb.k)
 		x.nonce = nil
 		p("reset")
 		p("%s", putLine(x.json(), rb, false))
-		load(rb.pass) // (b) nonce missing: GCM panics
+		load(rb.pass) // (b) nonce missing: rejected before gcm.Open
 		p("export pass=%s", hx.Hex(rb.pass))
 		p("reset")
 		p("%s", putLine(l1.file, l1, true))
-		load([]byte{}) // (c) legacy file, empty passphrase: division by zero
+		load([]byte{}) // (c) legacy file, empty passphrase: rejected before the legacy derivation
+		p("export pass=-")
+		load(l1.pass)
 		p("reset")
 		p("%s", putLine(l2.file, l2, true))
 		load(append(cp(l2.pass[:32]), []byte("something else")...)) // (d) legacy derivation ignores everything after 32 bytes
